@@ -181,6 +181,17 @@ func runClient(s ClientScript, v *vt.V) {
 							}
 						}
 					}
+					// an "upload id" that is the URL of something else in a repository outside: a manifest
+					// (the commit's PUT would store one there), a blob
+					for _, route := range []string{"/manifests/evil", "/blobs/" + string(digest.FromBytes(viaView))} {
+						for _, form := range []string{"/v2/" + target + route, "http://" + srv.Host + "/v2/" + target + route} {
+							if w2, err := view.PushBlobChunkedResume(ctx, "x", form, 0, 0); err == nil {
+								w2.Write(viaView)
+								w2.Commit(digest.FromBytes(viaView))
+								w2.Close()
+							}
+						}
+					}
 				}
 			}
 		case "Chunked":
@@ -220,7 +231,7 @@ func runClient(s ClientScript, v *vt.V) {
 var propClient = &vt.Prop[ClientScript]{
 	ID:   "C13",
 	Name: "SubOverClientConfinement",
-	Rule: "the view is laid over an ociclient talking (in-memory HTTP) to an ociserver over ocimem; the backend holds siblings outside the prefix (other, other/blah, <prefix>ey/x, <prefix> itself, the prefix's first element, zz) with a secret blob and a tagged manifest, and one repository inside; 1-6 calls (reads, deletes, pushes, mounts in both directions, chunked uploads, tag listings, and resuming - at offset 0 and at -1 - an upload id obtained through the view after rewriting it to name a repository outside, spelled plainly or with //, /./, /../ segments; half of the servers sit behind a path-cleaning ServeMux) use names that contain URL syntax ('?', '#', '&', '=', percent escapes, injected query parameters such as mount= and from=, fragments that cut the path short) besides dot segments and well-formed names; oracle = the view's repository listing, run twice (sometimes after a run that stopped at the first item), is each time the backend's restricted to the prefix; no read returns the outside content, the outside content never becomes readable inside the view, and everything outside the prefix is unchanged afterwards; non-trivial = some name contains URL syntax; distinct = (prefix, calls)",
+	Rule: "the view is laid over an ociclient talking (in-memory HTTP) to an ociserver over ocimem; the backend holds siblings outside the prefix (other, other/blah, <prefix>ey/x, <prefix> itself, the prefix's first element, zz) with a secret blob and a tagged manifest, and one repository inside; 1-6 calls (reads, deletes, pushes, mounts in both directions, chunked uploads, tag listings, and resuming - at offset 0 and at -1 - an upload id obtained through the view after rewriting it to name a repository outside, spelled plainly or with //, /./, /../ segments; or replacing it by the URL of a manifest or blob outside; half of the servers sit behind a path-cleaning ServeMux) use names that contain URL syntax ('?', '#', '&', '=', percent escapes, injected query parameters such as mount= and from=, fragments that cut the path short) besides dot segments and well-formed names; oracle = the view's repository listing, run twice (sometimes after a run that stopped at the first item), is each time the backend's restricted to the prefix; no read returns the outside content, the outside content never becomes readable inside the view, and everything outside the prefix is unchanged afterwards; non-trivial = some name contains URL syntax; distinct = (prefix, calls)",
 	Gen: func(t *rapid.T) ClientScript {
 		s := ClientScript{Prefix: rapid.SampledFrom([]string{"p", "foo", "foo/bar"}).Draw(t, "prefix"), Nested: rapid.IntRange(0, 3).Draw(t, "nested") == 0, Mux: rapid.Bool().Draw(t, "mux")}
 		sd := digest.FromBytes([]byte("content that exists only outside the prefix")).String()
